@@ -97,10 +97,17 @@ def ensure_native():
     if os.environ.get('RV_NATIVE'):
         _NATIVE = os.environ['RV_NATIVE']
         return _NATIVE
-    hd = os.path.join(VERIF, 'native', 'harness')
+    src = os.path.join(VERIF, 'native', 'harness')
     os.makedirs(CACHE, exist_ok=True)
     with open(os.path.join(CACHE, 'native.lock'), 'w') as lk:
         fcntl.flock(lk, fcntl.LOCK_EX)
+        # the crate is assembled under .cache so that its path dependency can point at the tree under test
+        hd = os.path.join(CACHE, 'native-crate')
+        os.makedirs(os.path.join(hd, 'src'), exist_ok=True)
+        shutil.copy(os.path.join(src, 'src', 'main.rs'), os.path.join(hd, 'src', 'main.rs'))
+        toml = open(os.path.join(src, 'Cargo.toml')).read().replace('path = "/repo"', 'path = "%s"' % REPO)
+        if not os.path.exists(os.path.join(hd, 'Cargo.toml')) or open(os.path.join(hd, 'Cargo.toml')).read() != toml:
+            open(os.path.join(hd, 'Cargo.toml'), 'w').write(toml)
         lock_src = os.path.join(REPO, 'Cargo.lock')
         lock_dst = os.path.join(hd, 'Cargo.lock')
         if not os.path.exists(lock_dst):
